@@ -2,8 +2,8 @@
 
 use std::sync::Arc;
 
-use crate::check::Family;
-use crate::world::*;
+use super::check::Family;
+use super::world::*;
 
 pub fn to(node: usize) -> Conn {
     Conn::To { node, mode: Mode::Plain }
